@@ -210,7 +210,10 @@ def main(check_name, tier, replay=None):
     witness_items = []
     if not baseline_mode:
         for k in known:
-            witness_items.append(mod.witness_item(k))
+            try:
+                witness_items.append(mod.witness_item(k))
+            except Exception as e:  # noqa: BLE001  (a malformed entry must not take the check down)
+                inconclusive.append(f"witness of listed finding {k.get('id')} cannot be replayed: {type(e).__name__}: {e}")
     timeout = plan.get("timeout", 900 if tier == "quick" else 6 * 3600)
     results, problems = run_shards(check_name, witness_items + items, tier, timeout, extra_env=plan.get("env"))
     inconclusive.extend(problems)
